@@ -53,7 +53,7 @@ class Ctx:
     # ------------------------------------------------------------------ TLC
     def tlc(self, module, cfg=None, *, env=None, workers=None, simulate=None, depth=100,
             timeout=600, extra=(), deadlock=False, dfs=False, name=None, check_ok=True,
-            heap=None):
+            heap=None, files=None):
         """Run TLC on tla/<module>.tla with tla/<cfg>.cfg. Returns dict(generated, distinct, out, rc)."""
         name = name or (cfg or module)
         wd = self.path("tlc-" + name)
@@ -62,6 +62,8 @@ class Ctx:
         os.makedirs(wd)
         for f in glob.glob(os.path.join(TLA_DIR, "*.tla")) + glob.glob(os.path.join(TLA_DIR, "*.cfg")):
             shutil.copy(f, wd)
+        for fn, content in (files or {}).items():
+            open(os.path.join(wd, fn), "w").write(content)
         cfgf = (cfg or module) + ".cfg"
         cmd = ["tlc", "-metadir", os.path.join(wd, "meta"), "-config", cfgf]
         if workers is None:
